@@ -724,6 +724,10 @@ CONFIG_ROUTES = (
     "attr-ior",          # settings = TunnelSettings(); settings.peer_flags |= {...}
     "attr-add",          # for f in ...: settings.peer_flags.add(f)
     "attr-update",       # settings.peer_flags.update({...})
+    # the operator's settings object receives my_peer / endpoint / network by merging the attribute dict of a freshly
+    # made default settings object into it - what ipv8.test.mocking.MockIPv8(..., settings=...) does for every user of
+    # the library's testing API
+    "merged-dict",       # settings.peer_flags = {...}; settings.__dict__.update(TunnelSettings(...).__dict__)
 )
 ADDITIVE_ROUTES = ("attr-ior", "attr-add", "attr-update")
 CONFIG_PAYLOADS = ("dht-ping", "utp-syn", "tracker-connect", "ipv8-other", "ipv8-own", "bt+ipv8", "junk")
@@ -746,7 +750,17 @@ def _build_configured(route: str, node, flags):  # noqa: ANN001, ANN202
 
     from .. import fixtures  # noqa: PLC0415
     other = {"min_circuits": 0, "max_circuits": 0}      # what else this operator sets (never peer flags)
-    if route in ADDITIVE_ROUTES:
+    if route == "merged-dict":
+        from ipv8.messaging.anonymization.community import TunnelCommunity, TunnelSettings  # noqa: PLC0415
+        from ipv8.peerdiscovery.network import Network  # noqa: PLC0415
+        settings = TunnelSettings()
+        for k, v in other.items():
+            setattr(settings, k, v)
+        if flags is not None:
+            settings.peer_flags = set(flags)
+        settings.__dict__.update(TunnelSettings(my_peer=node.my_peer, endpoint=node.endpoint, network=Network()).__dict__)
+        o = TunnelCommunity(settings)
+    elif route in ADDITIVE_ROUTES:
         from ipv8.messaging.anonymization.community import TunnelCommunity, TunnelSettings  # noqa: PLC0415
         from ipv8.peerdiscovery.network import Network  # noqa: PLC0415
         settings = TunnelSettings()
